@@ -969,6 +969,8 @@ def ops_for(spec, leafname, tier="quick"):
         # nested field), not a path
         ops.append(["rawset", "dyn.x", 5])
         ops.append(["rawset", "p.q", "v"])
+        ops.append(["setitem", "_hidden", 5])         # by item assignment a key may begin with an underscore
+        ops.append(["rawset", "gr\u00f6\u00dfe", 5])          # an identifier (and an XML name) outside ASCII
         ops.append(["set", "newfield", 5])
         ops.append(["setitem", "newfield", "s"])
         ops.append(["load_tree", D(("loaded_dyn", [1]))])
